@@ -137,6 +137,16 @@ ne_init_session(coap_session_t *s, coap_proto_t proto) {
   s->ack_random_factor = (coap_fixed_point_t){1, 500};
   s->max_token_size = 8;
   s->block_mode = 0;
+  /* further defaults of coap_make_session() */
+  s->default_leisure = COAP_DEFAULT_DEFAULT_LEISURE;
+  s->probing_rate = COAP_DEFAULT_PROBING_RATE;
+#if COAP_Q_BLOCK_SUPPORT
+  s->max_payloads = COAP_DEFAULT_MAX_PAYLOADS;
+  s->non_max_retransmit = COAP_DEFAULT_NON_MAX_RETRANSMIT;
+  s->non_timeout = COAP_DEFAULT_NON_TIMEOUT;
+  s->non_receive_timeout = COAP_DEFAULT_NON_RECEIVE_TIMEOUT;
+#endif
+  s->last_ping_mid = COAP_INVALID_MID;
   s->sock.lfunc[COAP_LAYER_SESSION].l_write = ne_l_write;
   s->sock.flags = COAP_SOCKET_NOT_EMPTY | COAP_SOCKET_CONNECTED;
 }
